@@ -653,6 +653,8 @@ func extractC20(c *ctx) (Facts, error) {
 		}
 	}
 
+	f["builder_router_metrics_shape"] = shape("components/metrics/builder.go", "PrometheusMetricsBuilder", "AddPrometheusRouterMetrics")
+
 	// --- the context marks
 	f["ctx_publishAlreadyObserved"] = shape("components/metrics/ctx.go", "", "publishAlreadyObserved")
 	f["ctx_setPublishObservedToCtx"] = shape("components/metrics/ctx.go", "", "setPublishObservedToCtx")
